@@ -785,8 +785,15 @@ impl Edges {
 
     /// Returns the [`Edges`] for a version specifier.
     fn from_specifier(specifier: VersionSpecifier) -> Edges {
+        Edges::Version {
+            edges: Edges::from_range(&Edges::specifier_range(specifier)),
+        }
+    }
+
+    /// Returns the range of release versions matched by a version specifier, with normalized bounds.
+    fn specifier_range(specifier: VersionSpecifier) -> Ranges<Version> {
         let specifier = normalize_specifier(specifier);
-        let range = if *specifier.operator() == Operator::TildeEqual {
+        if *specifier.operator() == Operator::TildeEqual {
             // The trailing `0`s of a `~=` version are significant for its upper bound, but the
             // lower bound is normalized like any other version in the tree.
             let release = specifier.version().release();
@@ -814,9 +821,6 @@ impl Edges {
             }
         } else {
             release_specifier_to_range(specifier)
-        };
-        Edges::Version {
-            edges: Edges::from_range(&range),
         }
     }
 
@@ -834,8 +838,7 @@ impl Edges {
             // and `not in` always `true`.
             let specifier = python_version_to_full_version(specifier)
                 .map_err(|node| if negated { node.not() } else { node })?;
-            let pubgrub_specifier = release_specifier_to_range(normalize_specifier(specifier));
-            range = range.union(&pubgrub_specifier);
+            range = range.union(&Edges::specifier_range(specifier));
         }
 
         if negated {
